@@ -1,7 +1,7 @@
 (** C18 — enrichment is per-address correct and failure-tolerant; caches keep only successes;
     providers are asked in order.  Theorems only. *)
 From Coq Require Import List ZArith Bool.
-From TR Require Import Res.Doc Pol.Cache Pol.PublicIp Proofs.DocProofs Proofs.PolProofs Lib.GoLists Lib.Shapes Generated.GoPublicIP Generated.Structure Proofs.GoTiePublicIP Proofs.ShapeProofs.
+From TR Require Import Res.Doc Pol.Cache Pol.PublicIp Proofs.DocProofs Proofs.PolProofs Proofs.CacheNoRequery Lib.GoLists Lib.Shapes Generated.GoPublicIP Generated.Structure Proofs.GoTiePublicIP Proofs.ShapeProofs.
 Import ListNotations.
 Open Scope Z_scope.
 
@@ -52,6 +52,14 @@ Theorem C18_cache_sequences : forall dflt ops hist s, cinv hist s ->
   from_history (hist ++ firstn n ops) (op_key o) v.
 Proof. exact cache_sequences. Qed.
 Print Assumptions C18_cache_sequences.
+
+(** "... until expiry without re-querying", over EVERY operation sequence on a non-decreasing clock, from the empty
+    cache: the callback is never invoked while a success stored for the same key is still inside the (positive) lifetime
+    it was stored with — [cache_norequery] is the very predicate the correspondence evaluates on what the real cache did *)
+Theorem C18_cache_never_requeries_early : forall dflt ops T,
+  times_ok T ops -> cache_norequery [] ops (run_cache dflt [] ops) = true.
+Proof. exact cache_never_requeries_early_from_empty. Qed.
+Print Assumptions C18_cache_never_requeries_early.
 
 (** providers: the answer comes from the first provider, in order, whose behaviour reaches a valid
     address before its deadline; no later provider is queried *)
